@@ -188,6 +188,18 @@ func vSkeleton(id int) []string {
 		return vUniqSortedBig(ks)
 	case 23, 24:
 		return vPrefixLowByte(id == 24)
+	case 26: // groups that share exactly L bytes and the upper nibble of the next byte (L around 64 and 128:
+		// stored prefixes that end mid-byte at a power-of-two buffer size)
+		base := make([]byte, 130)
+		for i := range base {
+			base[i] = byte('a' + (i*7+i/13)%23)
+		}
+		var ks []string
+		for i, l := range []int{62, 63, 64, 65, 126, 127, 128, 129} {
+			p := string(append([]byte{byte('A' + i)}, base[:l-1]...))
+			ks = append(ks, p+"a", p+"b", p+"c")
+		}
+		return ks
 	case 25: // like 19 with the highest byte values (labels up to 0xff in nested 257-bit nodes)
 		var ks []string
 		for a := 0; a < 12; a++ {
